@@ -647,7 +647,7 @@ package graphql
 //@   nosafety
 //@   assigns nothing
 //@   ensures result1 == nil
-//@   loop[C12] 1 invariant fresh(fieldNames)
+//@   loop 1 invariant fieldNames == nil || fresh(fieldNames)
 //@   loop[C12] 2 ordered
 //@   loop[C12] 2 invariant sortedflag(fieldNames) && fresh(fields)
 
@@ -660,8 +660,8 @@ package graphql
 //@   loop[C12] 2 invariant sortedflag(fieldNames) && fresh(fields)
 //@   loop[C12] 4 ordered
 //@   loop[C12] 4 invariant sortedflag(fieldNames) && fresh(fields)
-//@   loop 1 invariant fresh(fieldNames)
-//@   loop 3 invariant fresh(fieldNames)
+//@   loop 1 invariant fieldNames == nil || fresh(fieldNames)
+//@   loop 3 invariant fieldNames == nil || fresh(fieldNames)
 
 //@ func Schema.TypeMap
 //@   trusted
@@ -673,6 +673,6 @@ package graphql
 //@   nosafety
 //@   assigns nothing
 //@   ensures result1 == nil
-//@   loop 1 invariant fresh(typeNames)
+//@   loop 1 invariant typeNames == nil || fresh(typeNames)
 //@   loop[C12] 2 ordered
 //@   loop[C12] 2 invariant sortedflag(typeNames) && fresh(results)
